@@ -449,10 +449,26 @@ def run_cast(ctx) -> RuleResult:
                             derivation=trace))
                     # dtype guard: the path must have established that the buffer dtype is implemented
                     guard = False
+                    weak = None
                     for node, pol in step.fact_items():
                         if pol is True and isinstance(node, ast.Compare) and isinstance(node.ops[0], ast.In) \
                                 and ".dtype" in _txt(node.left):
-                            guard = True
+                            # the tested object must be the dtype itself: dtype.type / .kind / .char / .name ignore
+                            # byte order (and more), the C writers compare the full dtype
+                            if isinstance(node.left, ast.Attribute) and node.left.attr in ("type", "kind", "char", "name", "str", "itemsize"):
+                                weak = _txt(node.left)
+                            else:
+                                guard = True
+                    if not guard and weak is not None:
+                        result.ob(f"cfrom_attributes only for dtypes the C writers implement [{' / '.join(trace)}]",
+                                  False, module.loc(step.orig), weak)
+                        result.add(Finding(
+                            "R-CAST", module, "polynomial_from_attributes", call,
+                            f"the membership test in front of the raw C writer looks at '{weak[:60]}', not at the dtype itself: "
+                            f"dtypes that differ only in byte order (or anything else .{weak.rsplit('.', 1)[-1]} ignores) pass "
+                            f"the test, match no arm of the C writer and are silently not written",
+                            derivation=trace, construct="cfrom_attributes: weak dtype guard"))
+                        continue
                     result.ob(f"cfrom_attributes only for dtypes the C writers implement [{' / '.join(trace)}]",
                               guard, module.loc(step.orig), "")
                     if not guard:
